@@ -1464,7 +1464,14 @@ func (cs *clientStream) writeRequest(req *http.Request, streamf func(*clientStre
 				return err
 			}
 		}
-		if err = cs.writeRequestBody(req, bodyDumps); err != nil {
+		// writeRequestBody waits for flow-control credit on cc.cond, which the end of the request's
+		// context does not signal: once RoundTrip has returned the response head nobody else
+		// watches the context, so abort the stream from here (this wakes the wait, and the
+		// pending Read of the response body fails with the context's error).
+		stopAbortOnCtx := context.AfterFunc(ctx, func() { cs.abortStream(ctx.Err()) })
+		err = cs.writeRequestBody(req, bodyDumps)
+		stopAbortOnCtx()
+		if err != nil {
 			if err != errStopReqBodyWrite {
 				traceWroteRequest(cs.trace, err)
 				return err
